@@ -145,6 +145,13 @@ class Ctx:
                 allok = False
                 self.obligations.append((n, False, 'not found by #print axioms'))
                 self.broken.append((n, 'theorem missing: ' + text[-500:]))
+        # thorough tier: re-check the compiled module with the toolchain's independent checker
+        if self.tier == 'thorough' and allok:
+            rc, out, err = run_cmd(['lake', 'env', 'leanchecker', module], cwd=LEAN_DIR, timeout=3000)
+            self.coverage['leanchecker'] = {'module': module, 'exit': rc, 'output_tail': (out + err)[-300:]}
+            if rc != 0:
+                self.broken.append(('leanchecker', 'independent re-check of %s failed: %s' % (module, (out + err)[-800:])))
+                allok = False
         return allok and not bad_src
 
     # ------------------------------------------------------------------ findings / verdict
